@@ -63,7 +63,9 @@ WithPos(items, pp) == [j \in 1..Len(items) |-> [it |-> items[j], p |-> Append(pp
 
 \* mistakes in the value given to one field (ty: its element type), located under Pf
 ConvMistakes(f, ty, it, p, Pf) ==
-  CASE ty.k \in {"val", "opt", "vec", "u8", "bool"} ->
+  CASE it.form = "junk" /\ ty.k # "enum" -> <<M("other", "", Pf, p, FALSE)>>      \* a body that is not meta syntax
+    [] ty.k = "flag" -> IF it.form = "word" THEN <<>> ELSE <<M("other", "", Pf, p, FALSE)>>
+    [] ty.k \in {"val", "opt", "vec", "u8", "bool"} ->
          IF ScalarOk(f, ty, it) THEN <<>> ELSE <<M("other", "", Pf, p, FALSE)>>
     [] ty.k = "recv" ->
          LET T == D(ty.id) IN
@@ -78,7 +80,8 @@ EnumMistakes(E, it, p, Pf) ==
   LET live(name) == {i \in 1..Len(E.variants) : ~E.variants[i].skip /\ VariantName(E, E.variants[i]) = name}
       pick(name) == CHOOSE i \in live(name) : \A j \in live(name) : i <= j
   IN
-  CASE it.form = "word" ->
+  CASE it.form = "junk" -> <<M("other", "", Pf, p, FALSE)>>
+    [] it.form = "word" ->
          IF (\E i \in 1..Len(E.variants) : E.variants[i].word) \/ E.from_word THEN <<>> ELSE <<M("other", "", Pf, p, FALSE)>>
     [] it.form = "nv" ->
          IF LitKind(it.val) # "s" \/ live(LitBody(it.val)) = {} THEN <<M("other", "", Pf, p, FALSE)>>
@@ -95,7 +98,8 @@ EnumMistakes(E, it, p, Pf) ==
              CASE v.style = "unit" -> IF x.form = "word" THEN <<>> ELSE <<M("other", "", Pf, q, FALSE)>>
                [] v.style = "newtype" -> ConvMistakes([transform |-> "none"], v.ty, x, q, Append(Pf, nm))
                [] v.style = "struct" ->
-                    IF x.form = "list"
+                    IF x.form = "junk" THEN <<M("other", "", Pf, q, FALSE)>>
+                    ELSE IF x.form = "list"
                     THEN MistakesStruct(D(v.sid), EnumRule(E), WithPos(x.items, q), Append(Pf, nm), q)
                     ELSE <<M("other", "", Pf, q, FALSE)>>
 
@@ -125,7 +129,8 @@ ScalarValue(f, ty, it) ==
   IN IF ty.k = "opt" THEN <<t>> ELSE t
 
 ValueOf(f, ty, it) ==
-  CASE ty.k \in {"val", "opt", "vec", "u8", "bool"} -> ScalarValue(f, ty, it)
+  CASE ty.k = "flag" -> "f:true"
+    [] ty.k \in {"val", "opt", "vec", "u8", "bool"} -> ScalarValue(f, ty, it)
     [] ty.k = "recv" -> IF it.form = "word" THEN Marked(ty, "fw", "")
                         ELSE ExpectedStruct(D(ty.id), D(ty.id).rename_all, it.items)
     [] ty.k = "enum" -> EnumValue(D(ty.id), it)
